@@ -242,3 +242,96 @@ def units(tier, seed):  # noqa: F811
         outside=["comments outside this token alphabet", "block-comment marker stripping in _extract_ignore_from_comment"],
         witnesses_required=["directive"] + (["several_rules"] if pre else ["malformed"]), sharded=True,
         timeout_s=600 if tier == "quick" else 2400) for n, pre in cfg]
+
+
+# ---------------------------------------------------------------- where a directive is anchored (from_tree, templated files)
+COMMENTS = ["-- noqa: LT01", "/* noqa: disable=all */", "-- noqa"]
+
+
+def make_location(K1, K2):
+    """A noqa comment at an arbitrary offset of a file whose SOURCE and RENDERED texts have independent newline layouts:
+    the directive must carry the comment's source line/column (violations are matched by source line)."""
+    def factory(excluded=frozenset()):
+        import sqlfluff.core.templaters.base as tb
+        from harness import c31
+        from symlite.values import NLStr, sym_len
+        tb.len = sym_len
+
+        def harness(c):
+            from sqlfluff.core.parser.markers import PositionMarker
+            from sqlfluff.core.parser.segments import CommentSegment
+            from sqlfluff.core.templaters.base import TemplatedFile
+            n1, ps1, s1 = c31._nlstr(c, K1, name="n_src")
+            n2 = c.declare("n_tpl", z3.Int("n_tpl"))
+            c.assume(n2 >= 0)
+            ps2, prev = [], -1
+            for i in range(K2):
+                p = c.declare(f"t{i}", z3.Int(f"t{i}"))
+                c.assume(z3.And(p > prev, p < n2))
+                prev = p
+                ps2.append(p)
+            s2 = NLStr(n2, [SymInt(p) for p in ps2], [])
+            tf = TemplatedFile(source_str="", fname="f")
+            tf._source_newlines = list(tb.iter_indices_of_newlines(s1))
+            tf._templated_newlines = list(tb.iter_indices_of_newlines(s2))
+            text = choose(c, "comment", COMMENTS)
+            a = fresh_int(c, "comment_source_offset", 0)
+            ta = fresh_int(c, "comment_rendered_offset", 0)
+            c.assume(a.e + len(text) <= n1)
+            c.assume(ta.e + len(text) <= n2)
+            pm = PositionMarker(slice(a, a + len(text)), slice(ta, ta + len(text)), tf)
+            seg = CommentSegment(text, pm, instance_types=("block_comment" if text.startswith("/*") else "inline_comment",))
+            d = IgnoreMask._extract_ignore_from_comment(seg, {"LT01": {"LT01"}})   # REAL
+            if d is None or isinstance(d, SQLBaseError):
+                return False
+            cnt = z3.Sum([z3.If(p < a.e, 1, 0) for p in ps1]) if ps1 else z3.IntVal(0)
+            last = z3.IntVal(-1)
+            for p in ps1:
+                last = z3.If(p < a.e, p, last)
+            if K1 != K2:
+                c.witness("layouts_differ")
+            return z3.And(lift(d.line_no) == 1 + cnt, lift(d.line_pos) == a.e - last)
+        return harness
+    return factory
+
+
+def replay_location(K1, K2):
+    def rp(cex):
+        import sqlfluff.core.templaters.base as tb
+        from sqlfluff.core.parser.markers import PositionMarker
+        from sqlfluff.core.parser.segments import CommentSegment
+        from sqlfluff.core.templaters.base import RawFileSlice, TemplatedFile, TemplatedFileSlice
+        if "len" in vars(tb):
+            del tb.len
+        text = COMMENTS[int(cex.get("comment", 0))]
+        n1, n2 = int(cex["n_src"]), int(cex["n_tpl"])
+        ps1 = [int(cex[f"p{i}"]) for i in range(K1)]
+        ps2 = [int(cex[f"t{i}"]) for i in range(K2)]
+        a, ta = int(cex.get("comment_source_offset", 0)), int(cex.get("comment_rendered_offset", 0))
+        src = "".join("\n" if i in ps1 else "x" for i in range(n1))
+        tpl = "".join("\n" if i in ps2 else "y" for i in range(n2))
+        tf = TemplatedFile(source_str=src, fname="f", templated_str=tpl,
+                           sliced_file=[TemplatedFileSlice("templated", slice(0, n1), slice(0, n2))], raw_sliced=[RawFileSlice(src, "templated", 0)])
+        seg = CommentSegment(text, PositionMarker(slice(a, a + len(text)), slice(ta, ta + len(text)), tf),
+                             instance_types=("block_comment" if text.startswith("/*") else "inline_comment",))
+        d = IgnoreMask._extract_ignore_from_comment(seg, {"LT01": {"LT01"}})
+        exp = (1 + src[:a].count("\n"), a - src.rfind("\n", 0, a))
+        got = (d.line_no, d.line_pos) if d is not None and not isinstance(d, SQLBaseError) else None
+        return None if got == exp else (f"comment {text!r} at source offset {a} (line/col {exp}) and rendered offset {ta} of a file whose source has "
+                                        f"newlines at {ps1} and whose rendering has newlines at {ps2}: the directive is anchored at {got}")
+    return rp
+
+
+_units_with_parse = units
+
+
+def units(tier, seed):  # noqa: F811
+    ks = [(1, 0), (2, 1), (1, 2)] if tier == "quick" else [(a, b) for a in range(4) for b in range(4)]
+    return _units_with_parse(tier, seed) + [Unit(
+        name=f"c20.directive_location[source K={k1},rendered K={k2}]",
+        functions=["sqlfluff.core.rules.noqa.IgnoreMask._extract_ignore_from_comment (from_tree)", "PositionMarker.source_position",
+                   "TemplatedFile.get_line_pos_of_char_pos"],
+        bounds={"newlines in source": k1, "newlines in rendering": k2, "offsets / lengths": "unbounded", "comment": COMMENTS},
+        make=make_location(k1, k2), replay=replay_location(k1, k2),
+        stubs=["two NLStr texts with independent newline layouts behind a real-constructed TemplatedFile; the comment is a real CommentSegment"],
+        witnesses_required=(["layouts_differ"] if k1 != k2 else []), sharded=False, timeout_s=300) for k1, k2 in ks]
